@@ -18,7 +18,7 @@ func init() {
 			"(b) on every path of every write-mutex critical section encode and Seq+=1 strictly alternate and the section never ends after an encode without an increment, error returns included (a number may be skipped, never reused); the send of the encoded bytes is in the same section; " +
 			"(c) the only stores to the sequence number are the constructor's 0 and old+1, stream ids come from an atomic +1 counter and are never re-stored; " +
 			"(d) every encoder call site is either a sequenced one or the once-per-session closing notice with constant (0xffffffff, 0).",
-		NotDecided: "what the peer does with skipped numbers; nonce pairs across the two endpoints (outside the statement); that wrap-around after 2^64 frames never happens.",
+		NotDecided:  "what the peer does with skipped numbers; nonce pairs across the two endpoints (outside the statement); that wrap-around after 2^64 frames never happens.",
 		Assumptions: []string{"sync.Mutex provides mutual exclusion", "call graph resolves every caller of the frame-sending helpers (no reflection)"},
 	})
 }
